@@ -341,6 +341,10 @@ def run(chk, tier):
         table = json.load(fh)["entries"]
     terminator_rule(chk, db)
     size_bound_rule(chk, plain, table)
+    # POST: the size each mutating member leaves equals the specified one (callees by their own specification)
+    npost = slots.check_post(chk, plain, ["basic_inplace_string"])
+    if npost < 10:
+        chk.analysis_broken("POST: only %d specified mutating members found (floor 10)" % npost)
     # SLOTS-W: a size store that may grow the string is on a path that writes the newly exposed characters
     slots.check(chk, plain, ["basic_inplace_string"], lambda r: False, only=("W", "U"))
     if chk.rule_instances.get("SLOTS-W", 0) < 4:
